@@ -1,4 +1,156 @@
-From Coq Require Import ZArith List.
-From PV Require Import Base.U64 C04.C04_Heap Sched.Core Sched.Prog C04.C04_Proofs.
-Theorem c04_placeholder : True. Proof. exact placeholder. Qed.
-Print Assumptions c04_placeholder.
+(* C04_Properties.v — the property theorems of C04.  ONLY `Theorem .. exact lemma. Qed.` + Print Assumptions.
+   Part A: the sleep-queue heap (C04_Heap.v).  Part B: the wake-up contract of the scheduler model
+   (Sched/Core.v + Sched/Prog.v), over every program of the core op language whose interrupts carry a
+   non-zero errno, every run length, every event of the trace. *)
+From Coq Require Import ZArith List Permutation.
+From PV Require Import Base.U64 C04.C04_Heap C04.C04_HeapProofs Sched.Core Sched.Prog Sched.Invariant
+                       C04.C04_Inv C04.C04_Step2 C04.C04_Proofs C04.C04_Proofs2.
+Import ListNotations.
+
+(* ================= Part A: SleepQueue ================= *)
+Theorem heap_inv_init : forall ts, Inv ts heap_empty.
+Proof. exact Inv_empty. Qed.
+Print Assumptions heap_inv_init.
+
+Theorem heap_inv_ts_ext : forall ts ts' h,
+  Inv ts h -> (forall t, In t (hq h) -> ts' t = ts t) -> Inv ts' h.
+Proof. exact Inv_ts_ext. Qed.
+Print Assumptions heap_inv_ts_ext.
+
+Theorem heap_front_is_min : forall ts h t,
+  Inv ts h -> front h = Some t -> forall u, In u (hq h) -> (ts t <= ts u)%Z.
+Proof. exact front_is_min. Qed.
+Print Assumptions heap_front_is_min.
+
+Theorem heap_inv_push : forall ts h t,
+  Inv ts h -> hidx h t = (-1)%Z -> Inv ts (push ts h t).
+Proof. exact push_Inv. Qed.
+Print Assumptions heap_inv_push.
+
+Theorem heap_push_perm : forall ts h t,
+  Inv ts h -> hidx h t = (-1)%Z -> Permutation (hq (push ts h t)) (t :: hq h).
+Proof. exact push_perm. Qed.
+Print Assumptions heap_push_perm.
+
+Theorem heap_inv_pop_front : forall ts h,
+  Inv ts h -> hq h <> [] ->
+  exists h' t, pop_front ts h = (h', Some t) /\ front h = Some t /\ Inv ts h' /\
+               Permutation (hq h) (t :: hq h') /\ hidx h' t = (-1)%Z.
+Proof. exact pop_front_Inv. Qed.
+Print Assumptions heap_inv_pop_front.
+
+Theorem heap_pop_front_min : forall ts h h' t,
+  Inv ts h -> pop_front ts h = (h', Some t) ->
+  In t (hq h) /\ forall u, In u (hq h) -> (ts t <= ts u)%Z.
+Proof. exact pop_front_min. Qed.
+Print Assumptions heap_pop_front_min.
+
+Theorem heap_inv_pop : forall ts h t,
+  Inv ts h -> In t (hq h) -> exists h', pop ts h t = (h', 0%Z) /\ Inv ts h'.
+Proof. exact pop_Inv. Qed.
+Print Assumptions heap_inv_pop.
+
+Theorem heap_pop_removes_exactly : forall ts h t,
+  Inv ts h ->
+  (In t (hq h) ->
+   exists h', pop ts h t = (h', 0%Z) /\ Inv ts h' /\ Permutation (hq h) (t :: hq h') /\
+              hidx h' t = (-1)%Z) /\
+  (~ In t (hq h) -> pop ts h t = (h, (-1)%Z)).
+Proof. exact pop_removes_exactly. Qed.
+Print Assumptions heap_pop_removes_exactly.
+
+Theorem heap_ops_inv : forall l s rs,
+  hops_run hstate_init l [] = (s, rs) ->
+  Inv (hs_ts s) (hs_heap s) /\ hbad (hs_heap s) = false.
+Proof. exact hops_Inv. Qed.
+Print Assumptions heap_ops_inv.
+
+Theorem heap_ops_pop_front_min : forall l s rs s' v,
+  hops_run hstate_init l [] = (s, rs) -> hop_step s HPopFront = (s', v) ->
+  (hq (hs_heap s) = [] /\ v = (-2)%Z /\ s' = s) \/
+  (exists t, v = Z.of_nat t /\ front (hs_heap s) = Some t /\
+             (forall u, In u (hq (hs_heap s)) -> (hs_ts s t <= hs_ts s u)%Z) /\
+             Permutation (hq (hs_heap s)) (t :: hq (hs_heap s')) /\
+             hidx (hs_heap s') t = (-1)%Z /\ hs_ts s' = hs_ts s /\ HSInv s').
+Proof. exact hops_pop_front_min. Qed.
+Print Assumptions heap_ops_pop_front_min.
+
+(* ================= Part B: the contract ================= *)
+Local Open Scope Z_scope.
+
+(* the invariant from which everything follows holds in every reachable state of every program *)
+Theorem sched_invariant : forall fuel ps, ps <> [] -> NZ_progs ps ->
+  GI (core_progs ps) (run_state fuel ps) /\ TI (core_progs ps) (run_state fuel ps).
+Proof. exact run_GI_TI. Qed.
+Print Assumptions sched_invariant.
+
+Theorem usleep_returns_0_or_minus1 : forall ps fuel ev d, ps <> [] -> NZ_progs ps ->
+  In ev (s_trace (run_state fuel ps)) -> ev_cop ps ev = Some (OUsleep d) -> ev_ret ev = 0 \/ ev_ret ev = -1.
+Proof. exact usleep_ret_0_or_m1. Qed.
+Print Assumptions usleep_returns_0_or_minus1.
+
+(* thread_usleep(t) returns 0 only at (hence not before) its deadline — or, for an already expired
+   (zero) timeout, after a mere yield *)
+Theorem sleep_zero_means_elapsed : forall ps fuel ev d, ps <> [] -> NZ_progs ps ->
+  In ev (s_trace (run_state fuel ps)) -> ev_cop ps ev = Some (OUsleep d) -> ev_ret ev = 0 ->
+  (expired (ev_issued ev) (timeout_of (ev_issued ev) d) = false /\ ev_time ev = timeout_of (ev_issued ev) d) \/
+  (expired (ev_issued ev) (timeout_of (ev_issued ev) d) = true /\ ev_issued ev <= ev_time ev).
+Proof. exact sleep_zero_means_elapsed_lemma. Qed.
+Print Assumptions sleep_zero_means_elapsed.
+
+Theorem sleep_zero_elapsed_at_least : forall ps fuel ev d, ps <> [] -> NZ_progs ps ->
+  In ev (s_trace (run_state fuel ps)) -> ev_cop ps ev = Some (OUsleep d) ->
+  ev_ret ev = 0 -> 0 <= d -> ev_issued ev + d <= MAX64 -> ev_time ev - ev_issued ev >= d.
+Proof. exact sleep_zero_elapsed_lemma. Qed.
+Print Assumptions sleep_zero_elapsed_at_least.
+
+(* thread_usleep returns -1 only with the errno of a completed thread_interrupt(self, errno) /
+   thread_shutdown(self) (event number ev_src of the trace), or as the 10 ms cap of a shut-down thread *)
+Theorem sleep_minus1_means_interrupted : forall ps fuel ev d, ps <> [] -> NZ_progs ps ->
+  In ev (s_trace (run_state fuel ps)) -> ev_cop ps ev = Some (OUsleep d) -> ev_ret ev = -1 ->
+  (ev_err ev <> 0 /\
+   exists ev', nth_error (run_trace fuel ps) (ev_src ev) = Some ev' /\ ev_ret ev' = 0 /\
+               (ev_cop ps ev' = Some (OInterrupt (ev_tid ev) (ev_err ev)) \/
+                (exists f, ev_cop ps ev' = Some (OShutdown (ev_tid ev) f) /\ ev_err ev = EPERM))) \/
+  (ev_shut ev = true /\ ev_err ev = EPERM /\ ev_k ev = [3]).
+Proof. exact sleep_minus1_means_interrupted_lemma. Qed.
+Print Assumptions sleep_minus1_means_interrupted.
+
+Theorem interrupt_wakes_sleeper : forall (st : cstate) t e,
+  WF st -> th_state (getth st t) = SLEEPING ->
+  let st' := thread_interrupt st t e in
+  th_state (getth st' t) = READY /\ th_err (getth st' t) = e /\ th_waitq (getth st' t) = None /\
+  In t (s_runq st') /\ ~ In t (hq (s_sleepq st')) /\ WF st'.
+Proof. exact interrupt_wakes_sleeper_lemma. Qed.
+Print Assumptions interrupt_wakes_sleeper.
+
+Theorem pending_errno_not_overwritten : forall (st : cstate) t e,
+  th_state (getth st t) = READY -> th_err (getth st t) <> 0 ->
+  getth (thread_interrupt st t e) t = getth st t.
+Proof. exact pending_errno_not_overwritten_lemma. Qed.
+Print Assumptions pending_errno_not_overwritten.
+
+(* after every round of the idler no thread whose deadline has been reached is still SLEEPING *)
+Theorem deadline_met : forall progs (st : cstate) rest,
+  GI progs st -> s_runq st = idler_tid st :: rest ->
+  forall u, th_state (getth (idler_round st) u) = SLEEPING ->
+            s_now (idler_round st) < th_ts (getth (idler_round st) u).
+Proof. exact deadline_met_round. Qed.
+Print Assumptions deadline_met.
+
+(* the part of shutdown_bound that holds: thread_usleep of a thread marked by thread_shutdown *)
+Theorem shutdown_bound_usleep : forall ps fuel ev d, ps <> [] -> NZ_progs ps ->
+  In ev (s_trace (run_state fuel ps)) -> ev_cop ps ev = Some (OUsleep d) ->
+  ev_shut ev = true -> expired (ev_issued ev) (timeout_of (ev_issued ev) d) = false ->
+  ev_ret ev = -1 /\ ev_time ev <= ev_issued ev + SHUTDOWN_CAP.
+Proof. exact shutdown_bound_usleep_lemma. Qed.
+Print Assumptions shutdown_bound_usleep.
+
+(* FINDINGS: the model, faithful to the code, refutes the two remaining clauses *)
+Theorem interrupt_at_most_once_refuted : ~ interrupt_at_most_once.
+Proof. exact interrupt_at_most_once_refuted_lemma. Qed.
+Print Assumptions interrupt_at_most_once_refuted.
+
+Theorem shutdown_bound_refuted : ~ shutdown_bound.
+Proof. exact shutdown_bound_refuted_lemma. Qed.
+Print Assumptions shutdown_bound_refuted.
